@@ -38,7 +38,7 @@ ASSUMPTIONS = ["parent and 1-3 partners of an added atom come from the harness' 
                "water hydrogens: bond length within 0.06 A of the template value (the optimiser builds O-H = 1.0 A)",
                "the templates the loader hands to the build stages are physically plausible: every template hydrogen lies "
                "0.90-1.15 A from the atom it is bonded to, geminal hydrogens are at least 100 degrees apart, bonded heavy "
-               "atoms are 1.15-1.90 A apart (the 194 "
+               "atoms are 1.15-1.90 A apart, every torsion is defined over a bonded path (the 194 "
                "definitions of the unchanged tree lie within 0.96-1.09 A, >= 108.7 degrees, 1.22-1.83 A): a slipped digit "
                "in a data file would otherwise become 'what the template prescribes'"]
 MIN = {"quick": {"added_atoms_checked": 10000, "fit_events": 9000, "create_atom_events": 12000,
@@ -408,6 +408,17 @@ def run_templates(res):
                 if ang < 100.0:
                     res.violate("template/implausible-geminal-angle", f"template {name}: {h1}-{an}-{h2} is {ang:.1f} "
                                 f"degrees", template=name, atoms=[h1, an, h2], angle=round(ang, 2))
+        for dh in getattr(ref, "dihedrals", []) or []:
+            # a torsion is defined over a bonded path a-b-c-d: b-c is the axis set_dihedral_angle turns about, so the
+            # atoms beyond c keep their bond lengths and angles only if b-c is a bond
+            names = dh.split()
+            res.count("template_dihedrals_checked")
+            for x, y in zip(names, names[1:]):
+                if x in ref.map and y in ref.map and y not in ref.map[x].bonds and x not in ref.map[y].bonds:
+                    res.violate("template/dihedral-not-a-bonded-path", f"template {name}: torsion '{dh}' names {x}-{y}, "
+                                f"which are not bonded; rotating about it bends the angles at {names[2]}",
+                                template=name, dihedral=dh)
+                    break
         res.nt("template", name)
         res.cell("template", "na" if name[:2] in ("RA", "RC", "RG", "RU", "DA", "DC", "DG", "DT") else "aa")
     res.sample = {"kind": "templates"}
